@@ -1571,8 +1571,14 @@ fn main() {
                     } else {
                         shrink_case(c, |cc| oracle(cc, &run_impl(cc)).is_some())
                     };
-                    let r2 = run_impl(&small);
-                    let what = oracle(&small, &r2).unwrap_or_else(|| "oracle failure not reproducible on the shrunk case".into());
+                    let mut small = small;
+                    let mut r2 = run_impl(&small);
+                    if oracle(&small, &r2).is_none() {
+                        // not deterministic (hash seeds, thread timing): keep the case as it failed
+                        small = c.clone();
+                        r2 = run.clone();
+                    }
+                    let what = oracle(&small, &r2).unwrap_or_else(|| "oracle failure not reproducible".into());
                     let site = match c.pipeline() {
                         "worker" if r2.exited == Some(false) => "aggregation:worker-termination".to_string(),
                         p => format!("aggregation:{p}"),
